@@ -38,7 +38,8 @@ MC_THOROUGH = MC_QUICK + [
     ('OciAuthMC_calls3.cfg', 'as quick with 3 sequential calls'),
     ('OciAuthMC_wide.cfg', '2 realms, 2 resource scopes, all challenge offer sets (Basic+Bearer, Bearer+unknown, missing realm), '
      'all body kinds and statuses, 2 configurations, 2 calls'),
-    ('OciAuthMC_time.cfg', 'half-second ticks, lifetimes {none, 1 s, 2 s}, clock <= 5, time passes while waiting, 3 calls, 2 configurations'),
+    ('OciAuthMC_time.cfg', 'half-second ticks, lifetimes {none, 1 s}, clock <= 4, 3 calls, 2 tokens (reaches: a later-issued token expired '
+     'behind an earlier-issued live one and needed again - witness ExpiredBehindLive in OciAuthMC), refresh-token host + credential-less host'),
     ('OciAuthMC_conc.cfg', '2 calls in progress together on one transport (per-host lock), 2 configurations, no expiry'),
 ]
 
@@ -249,7 +250,7 @@ def samples(trace, k=16):
                     return cur[:k]
                 best = best or cur
                 cur = []
-                e = dict(op='reset', cfg=e['cfg'], timed=e['timed'], src=e['src'])
+                e = dict(op='reset', cfg=e['cfg'], names=e.get('names', {}), timed=e['timed'], src=e['src'])
             for drop in ('ms', 'hdrs' if e['op'] != 'regresp' else 'ms', 'diff', 'bodies'):
                 e.pop(drop, None)
             cur.append(e)
